@@ -49,11 +49,13 @@ def _is_transient_response(res: requests.Response) -> bool:
 
 def _gen_error_variants(error_id: str) -> List[str]:
     chunks = error_id.split('.')
+    # NOTE: from the most specific to the least specific: full id, id without `proto.<hash>`, error name, category
     variants = [error_id]
+    if len(chunks) > 2:
+        variants.append('.'.join(chunks[2:]))
     if len(chunks) > 1:
+        variants.append(chunks[-1])
         variants.append(chunks[-2])
-        if len(chunks) > 2:
-            variants.append('.'.join(chunks[2:]))
     return variants
 
 
